@@ -9,7 +9,7 @@ import hashlib
 
 from hypothesis import strategies as st
 
-from vlib.runner import good, bad, HarnessError
+from vlib.runner import good, bad, HarnessError, BaselineBroken
 from vlib.det import DET
 from vlib import scenario as sc
 from vlib import tap
@@ -77,7 +77,7 @@ def honest(name):
         DET.reseed("C06", name)
         p = sc.connect(client, server, prepare=prepare)
         if not p.both_ok:
-            raise HarnessError("honest %s failed: %r %r" % (name, p.co, p.so))
+            raise BaselineBroken("flavour:" + name, "%r %r" % (p.co, p.so))
         n_hs = {"c": len(log["c"]), "s": len(log["s"])}
         _honest[name] = (log, n_hs, tuple(p.c.version))
     return _honest[name]
@@ -344,7 +344,7 @@ def check_reneg(case):
             Deviant(conn, fn)
     p = sc.connect(client, server, prepare=prepare)
     if not p.both_ok:
-        raise HarnessError("handshake failed")
+        raise BaselineBroken("flavour:" + name, "%r %r" % (p.co, p.so))
     version = tuple(p.c.version)
     sc.do_write(p, "s", b"x")
     sc.read_all(p, "c")
